@@ -67,10 +67,10 @@ Proof. intros cfg translate (H1 & H2 & H3) ops. exact (no_null_no_bad_range cfg 
     state (no [ErrFuel]) – from the geometric invariant of WfProofs.v (segments
     contiguous from 0, start <= end <= |composition input|) and [calc_loop_ok]. *)
 Theorem core_total_except_substr :
-  forall cfg translate, total_hyps cfg translate -> cf_hist_guard cfg = true ->
+  forall cfg translate, total_hyps cfg translate -> cf_hist_guard cfg = true -> cf_kb_guard cfg = true ->
   (forall i s c, In c (translate i s) -> si_start s <= c_end c) ->
   forall ops, Forall obs_only_substr (snd (run cfg translate ops)).
-Proof. intros cfg translate (H1 & H2 & H3) Hg Hce ops. exact (only_substr_can_fail cfg translate H1 H2 H3 Hg Hce ops). Qed.
+Proof. intros cfg translate (H1 & H2 & H3) Hg Hk Hce ops. exact (only_substr_can_fail cfg translate H1 H2 H3 Hg Hk Hce ops). Qed.
 
 (** the C05 key alphabet: no crash at all, any translator, both editors *)
 Theorem core_total_edit :
@@ -111,6 +111,7 @@ Proof.
   intros fluid dlog. apply core_total_except_substr.
   - split; [cbn; lia|]. split; [|reflexivity]. intros i s. pose proof (InvProofs.oracle_translate_length i s). cbn. lia.
   - reflexivity.
+  - reflexivity.
   - intros i s c. apply oracle_translate_end.
 Qed.
 
@@ -127,7 +128,7 @@ Proof. intros cfg translate (H1 & H2 & H3) Hc Hf ops. exact (TotalFull.core_tota
 
 (** synth_express / synth_fluid are plain chains (the CommitHistory fact comes from the source) *)
 Lemma synth_plain_chain fluid dlog : plain_chain (synth_cfg fluid dlog).
-Proof. split; [reflexivity|]. split; [reflexivity|]. cbn. intros [H | [H | [H | [H | []]]]]; discriminate H. Qed.
+Proof. split; [reflexivity|]. split; [reflexivity|]. split; [reflexivity|]. cbn. intros [H | [H | [H | [H | []]]]]; discriminate H. Qed.
 (** their menus are the oracle translator's lists *)
 Lemma synth_translate_plain fluid dlog i s : synth_translate (synth_cfg fluid dlog) i s = oracle_translate i s.
 Proof. apply all_translate_main_only. reflexivity. Qed.
